@@ -41,7 +41,7 @@ PROPS = {
         "min_nontrivial_frac": 0.3,
         "rule": GEN_TA + "single automata plus injected shapes (final state without rules + unreachable rule owner, no final state, rule over a never-productive child); "
                 "RemoveUnreachableStates / RemoveUselessStates (with and without translation map) compared by language with the input and checked for dead states/rules on the result; "
-                "IsLangEmpty against the productivity fixpoint. Non-trivial: the input has an unreachable rule owner or an unproductive state. Distinct: hash of the case text.",
+                "IsLangEmpty against the productivity fixpoint, also along a 7-step history on one object (queries interleaved with copy-/move-assignment from an automaton of the opposite emptiness, SetStateFinal, EraseFinalStates, AddTransition). Non-trivial: the input has an unreachable rule owner or an unproductive state. Distinct: hash of the case text.",
         "assumptions": COMMON_ASSUMPTIONS,
     },
     "C04": {
